@@ -531,29 +531,27 @@ Fixpoint conjugate_r (path : list nat) (e : expr) {struct e} : res recipe :=
   | EConst _ => Ok (RRef path)
   | EMul c d =>
       let off := if num_is_one c then 0%nat else 1%nat in
+      (* conj_coef = conjugate(coef): a Number, except conjugate(zoo) which stays an unevaluated Conjugate and
+         is multiplied in at the end:  mul(conj_coef, Mul::from_dict(coef, new_dict)) *)
+      do l <- (fix go (i : nat) (d : mdict) {struct d} : res (list (recipe * recipe)) :=
+                 match d with
+                 | [] => Ok []
+                 | (k, v) :: r =>
+                     let unit := expr_eqb v e_one in
+                     do t <- (if is_Integer v then
+                                (* dict_add_term_new(coef, new_dict, p.second, conjugate(p.first)) *)
+                                do ck <- conjugate_r (if unit then path ++ [i] else path ++ [i; 0%nat]) k;
+                                Ok (if unit then r_int 1 else RRef (path ++ [i; 1%nat]), ck)
+                              else
+                                (* dict_add_term_new(coef, new_dict, one, conjugate(Mul::from_dict(one, {{k, v}})));
+                                   from_dict gives Pow(k, v), v not an Integer: a raw Conjugate *)
+                                Ok (r_int 1, RRawConj (RRef (path ++ [i]))));
+                     do ts <- go (S i) r;
+                     Ok (t :: ts)
+                 end) off d;
       match num_conjugate c with
-      | None =>
-          (* coefficient zoo: conjugate(zoo) is a Conjugate object, rcp_static_cast<const Number> of it is
-             undefined behaviour; observed as SIGSEGV *)
-          ErrExn EXN_SIGSEGV
-      | Some c' =>
-          do l <- (fix go (i : nat) (d : mdict) {struct d} : res (list (recipe * recipe)) :=
-                     match d with
-                     | [] => Ok []
-                     | (k, v) :: r =>
-                         let unit := expr_eqb v e_one in
-                         do t <- (if is_Integer v then
-                                    (* dict_add_term_new(coef, new_dict, p.second, conjugate(p.first)) *)
-                                    do ck <- conjugate_r (if unit then path ++ [i] else path ++ [i; 0%nat]) k;
-                                    Ok (if unit then r_int 1 else RRef (path ++ [i; 1%nat]), ck)
-                                  else
-                                    (* dict_add_term_new(coef, new_dict, one, conjugate(Mul::from_dict(one, {{k, v}})));
-                                       from_dict gives Pow(k, v), v not an Integer: a raw Conjugate *)
-                                    Ok (r_int 1, RRawConj (RRef (path ++ [i]))));
-                         do ts <- go (S i) r;
-                         Ok (t :: ts)
-                     end) off d;
-          Ok (RDatnMul c' l)
+      | Some c' => Ok (RMul (r_int 1) (RDatnMul c' l))
+      | None => Ok (RMul (RRawConj (RNum c)) (RDatnMul (NInt 1) l))
       end
   | EPow b x =>
       if is_Integer x then
